@@ -273,7 +273,8 @@ Print Assumptions C11_src_observer_ops_example.
    ([RealCfg c] := exists S ix, [Reach S] /\ [RepI S ix (cS c)]; [Reach] is the hypothesis of C01_never_stale).
    [F_mix g sm] (C07's locality; C02_F_mix_entrywise) is only used because that PAST history may contain partial reverts. *)
 From Leaspy Require Import State.StateModel State.StateNow Compose.StateApi Compose.StateApiProofs Compose.StateApiRunProofs
-                           Compose.ApiOnStateProofs Compose.ComposeExamples State.StateExec Compose.RunProgOnState.
+                           Compose.ApiOnStateProofs Compose.ComposeExamples State.StateExec Compose.RunProgOnState
+                           Compose.ObserverSrcOnState.
 
 (** The interface every C11 / C13 theorem assumes holds of the real State model, for every well-formed graph. *)
 Theorem C11_state_interface_discharged :
@@ -330,6 +331,21 @@ Theorem C11_src_logging_transparent_state :
       /\ same_results V (r_read V g) c1 c2 /\ RealCfg V M IX g sm c1 /\ RealCfg V M IX g sm c2.
 Proof. exact gen_logging_transparent_state. Qed.
 Print Assumptions C11_src_logging_transparent_state.
+
+(** The same with the observers' [read_only] hypothesis discharged from the source (coq/gen/GenC11Obs.v): the only thing still
+    assumed of the observer scripts is that their events are of the kinds of the operations read from the methods. *)
+Theorem C11_src_logging_transparent_state_observers_from_source :
+  forall (V M IX : Type) (g : graph V) (sm : sem V M IX), WF g -> F_mix g sm ->
+  forall tracked tape seed_pos (seed : nat) (interp : aname -> nat -> nat -> list (ev V)) (oi oi' : oname -> nat -> list (ev V))
+         (base : nat) (e e' : env) (c c1 : cfg V),
+    e_aflag e FSeedSet = true -> same_algorithm e e' -> e_lflag e' LHasManager = false ->
+    RealCfg V M IX g sm c -> (forall o i, realises V (gen_observer_ops o) (oi o i) = true) ->
+    run_prog V (r_read V g) (r_write V g) (r_clone V g) tracked tape seed_pos seed interp oi base e fit_prog c = Some c1 ->
+    exists c2,
+      run_prog V (r_read V g) (r_write V g) (r_clone V g) tracked tape seed_pos seed interp oi' base e' fit_prog c = Some c2
+      /\ same_results V (r_read V g) c1 c2 /\ RealCfg V M IX g sm c1 /\ RealCfg V M IX g sm c2.
+Proof. exact gen_logging_transparent_state_observers_from_source. Qed.
+Print Assumptions C11_src_logging_transparent_state_observers_from_source.
 
 (** A whole fit (logged or not) on the API model IS one history of State-model operations — without any partial revert —
     on the store of State objects, and the API store keeps representing that store (the clones observers made stay behind
